@@ -306,11 +306,11 @@ def planner_jobs(ck, tier):
     # positional part (what a sampler leaves unwritten there flows into queries, tree and path)
     geo_envs = ["box2", "box3", "se2", "cz2", "cz3"]
     if tier == "quick":
-        seeds += [7, 1 + r.below(1 << 62)]
-        budgets = [200, 700, 1500, 3000]
+        seeds += [7, 1 + r.below(1 << 62), 1 + r.below(1 << 20)]
+        budgets = [100, 300, 700, 1500, 3000]
     else:
-        seeds += [7, 1 + r.below(1 << 62), 1 + r.below(1 << 20), 1 + r.below(1 << 40)]
-        budgets = [60, 120, 500, 1000, 2500, 4000]
+        seeds += [7, 1 + r.below(1 << 62), 1 + r.below(1 << 20), 1 + r.below(1 << 40), 3, 1 + r.below(1 << 10)]
+        budgets = [60, 120, 300, 500, 1000, 2500, 4000, 6000]
     jobs = []
     for s in seeds:
         for b in budgets:
@@ -374,7 +374,7 @@ def judge_planner_pair(ck, plain, job, ra, rb, excluded=False):
     # classify (information for the replay only) and find the first diverging query:
     # run C = heap layout and addresses as B, heap fill byte as A
     rc_ = run_plan(ck, plain, job, 2)
-    trigger = ("heap-fill-byte (uninitialised or freed heap memory is read)" if rc_["result"] == ra["result"]
+    trigger = ("heap fill byte / fresh-state filler (uninitialised or freed memory is read)" if rc_["result"] == ra["result"]
                else "heap-layout, addresses or another hidden input")
     ta = run_plan(ck, plain, job, 0, trace=True)
     tb = run_plan(ck, plain, job, 1, trace=True)
@@ -453,7 +453,7 @@ def samp_compare(kind, la, lb, fa, fb_):
 def sampler_check(ck, plain, quick):
     specs = sampler_lines(4 if quick else 12)
     r = ck.rng.fork("sampler-seeds")
-    seeds = [1 + r.below(1 << 30) for _ in range(2 if quick else 8)]
+    seeds = [1 + r.below(1 << 30) for _ in range(4 if quick else 16)]
     fa, fb_ = 3, 200
     bad = 0
     for seed in seeds:
@@ -660,7 +660,7 @@ def run(ck):
         seeds = [int(t) for l in body for t in l.split()[1:] if t.isdigit()]
         tasks.append(dict(body=body, seeds=seeds, tag="corpus", pairs=parse_pairs(body), model=not impl_only,
                           two_proc=any(l.startswith("setseed") for l in body)))
-    n_seed, n_reseed, n_stream, n_adv, K = (80, 150, 60, 20, 50) if quick else (200, 600, 200, 60, 50)
+    n_seed, n_reseed, n_stream, n_adv, K = (120, 250, 100, 30, 50) if quick else (300, 1000, 400, 100, 50)
     for i in range(n_seed):
         r = ck.rng.fork("seeding%d" % i)
         seeds, body = gen_seeding(r, K if i % 4 else 8)
@@ -730,7 +730,12 @@ def run(ck):
     ck.log("rng protocol: %d scripts, %d disagreement(s), %d failing" % (ck.traces_validated, ck.disagreements, bad))
 
     # ---- sampler level: outputs are a function of draws and inputs, never of the output state's old content ----
-    sampler_check(ck, plain, quick)
+    if bad == 0:
+        sampler_check(ck, plain, quick)
+    else:
+        # with a broken seeding protocol two processes draw different numbers anyway; the sampler comparison would
+        # only restate that failure in misleading words
+        ck.notes.append("sampler level skipped: the rng protocol already failed in this run")
 
     # ---- planner determinism across processes ------------------------------------------------------
     jobs = planner_jobs(ck, ck.tier)
